@@ -322,9 +322,11 @@ uint32_t w_once(uint32_t *(*cur)(void)) { return rand31_r(cur()); }
 NEG = {"ugt": "ule", "ule": "ugt", "uge": "ult", "ult": "uge", "sgt": "sle", "sle": "sgt", "sge": "slt", "slt": "sge", "eq": "ne", "ne": "eq"}
 
 
-def apply_conds(it, p, cands):
+def apply_conds(it, p, cands, lemma=False):
     """Refine the interpreter's intervals by the path's comparisons against constants, in order.  Returns False when a
-    comparison cannot hold for any valid state (the path is infeasible in the property's scope)."""
+    comparison cannot hold for any valid state (the path is infeasible in the property's scope).
+    lemma: a compared value that is congruent to 16807*s modulo p and lies in [0, p] under the conditions so far lies in [1, p-1]
+    (p prime, p does not divide 16807, 1 <= s < p)."""
     for c, taken, inst in p.conds:
         cc = strip_casts(c)
         if not (cc[0] == "icmp" and cc[3][0] == "c"):
@@ -334,6 +336,13 @@ def apply_conds(it, p, cands):
         try:
             cur = it.ev(cc[2])
             lo_, hi_ = cur.lo, cur.hi
+            if lemma:
+                try:
+                    bl, bh = it.bound(cur)
+                    if 0 <= bl and bh <= P and it.congruent(cur.lin, {"s": A}):
+                        lo_, hi_ = max(lo_, 1), min(hi_, P - 1)
+                except Top:
+                    pass
         except Top:
             lo_, hi_ = it.refine.get(cc[2], (0, 1 << 64))
         if pred in ("ugt", "sgt"):
@@ -384,6 +393,9 @@ def check_single_evaluation(chk, m):
     chk.expect("M5", "paths of the single-evaluation witness", len(ps), 1)
 
 
+_abort_paths = []
+
+
 def run(chk):
     chk.level = "proof"
     chk.explanation = (
@@ -396,6 +408,7 @@ def run(chk):
     chk.rule("M2", "result == 16807 * seed (mod 2^31-1) as an identity of linear forms modulo the relations x = 2^k q + r")
     chk.rule("M3", "result in [0, p] on every path (branch conditions refine the interval); with M2 and the lemma, in [1, p-1]")
     chk.rule("M4", "the value stored to *seedp is the returned value; the state is loaded from *seedp")
+    chk.rule("M7", "no valid state reaches an assertion failure inside the generator (each such path is infeasible over [1, p-1])")
     chk.assumptions += ["lemma: p = 2^31-1 is prime (re-checked arithmetically below) and does not divide 16807, hence "
                         "16807*s is not a multiple of p for 1 <= s < p",
                         "valid states only: seed in [1, 2^31-2] (the property's scope)"]
@@ -421,7 +434,9 @@ def run(chk):
         # a loop in the generator: unroll twice and discharge the truncation by showing that, for valid states, no path goes
         # round a third time
         ps = paths.enumerate_paths(fn, m, loop_bound=2, dropped=dropped)
+    aborts = [p for p in ps if paths.is_assert_fail_path(p)]
     ps = [p for p in ps if not paths.is_assert_fail_path(p)]
+    _abort_paths[:] = aborts
     for p in ps:
         # report at the library's own source line (the state update), not at the generated witness
         st = [e for e in p.events if e.kind == "store" and e.ptr == ("arg", 0)]
@@ -482,6 +497,42 @@ def run(chk):
         st = [e for e in p.events if e.kind == "store" and e.ptr == ("arg", 0)]
         chk.ob("M4.state", pid, len(st) == 1 and st[0].val == p.ret,
                "the new state stored to *seedp is the returned value", (st[0].inst.loc if st else p.where), fn.name)
+    # M7: the generator returns for every valid state - a path into __assert_fail (or abort) must be one no valid state takes
+    inv = pow(A, P - 2, P)
+    for p in _abort_paths:
+        pid = "abort path " + "->".join(b.lstrip("%") for b in p.blocks)
+        it = Interp(seed)
+        cs = set()
+        try:
+            feas = apply_conds(it, p, cs, lemma=True)
+        except Top:
+            feas = True
+        loc = p.conds[-1][2].loc if p.conds and p.conds[-1][2] is not None else fn.loc
+        if not feas:
+            chk.ob("M7.no-abort", pid, True, "no state in [1, p-1] reaches this assertion failure (interval refinement of its conditions; values congruent to 16807*s within [0, p] are in [1, p-1] by the lemma)", loc, fn.name)
+            continue
+        cands = sorted(cs | extra_cands) + [(r * inv) % P for r in list(range(1, 3000)) + list(range(P - 3000, P))] + \
+            [1, 2, 3, P - 1, P - 2, 65535, 65536, 0x7fff0000, 0x40000000]
+        hit = None
+        for s_ in cands:
+            if not 1 <= s_ <= P - 1:
+                continue
+            env = {seed: s_}
+            try:
+                if all(paths.cond_holds(cd, env) for cd in p.conds):
+                    hit = s_
+                    break
+            except NoValue:
+                hit = None
+                break
+        if hit is not None:
+            chk.ob("M7.no-abort", pid, False, "the valid state %d (next value %d) runs into an assertion failure at %s: rand31_r does not "
+                   "return for it" % (hit, (A * hit) % P, loc), loc, fn.name)
+        else:
+            chk.unknown("M7.no-abort", pid, "an assertion inside the generator is not shown unreachable for valid states (no witness "
+                        "among the boundary residues either)", loc)
+    if not _abort_paths:
+        chk.ob("M7.no-abort", "rand31_r", True, "the generator has no path into __assert_fail / abort", fn.loc, fn.name)
     if failed:
         for p_ in ps:
             for c_, t_, i_ in p_.conds:
